@@ -506,6 +506,9 @@ type Restarting struct {
 	// Skip > 0 additionally offers a boundary restart whose new chain starts Skip heights later (an export imported
 	// with a larger initial height): objects whose due height falls into the gap are overdue on the new chain.
 	Skip int64
+	// RejectSig: where the inner property itself promises that what exists survives a restart, a module that
+	// refuses its own export is that property's violation too (signature RejectSig + normalised error); empty = no-op
+	RejectSig string
 }
 
 // WithRestart wraps a driver constructor.
@@ -559,6 +562,9 @@ func (r *Restarting) Apply(e *Env, s *State, op Op) []Finding {
 	for _, m := range r.Modules {
 		if err := ReimportModule(e, b, m); err != nil {
 			s.Last = "err"
+			if r.RejectSig != "" {
+				return []Finding{F(r.RejectSig+"/"+Normalize(err.Error()), "module %s refuses the genesis it exported itself: %v", m, err)}
+			}
 			return nil
 		}
 	}
